@@ -89,6 +89,7 @@ func RunCase(cfg *PropCfg, s *Scenario, opts lab.NodeOpts, ev *Evidence, trace b
 			if ev != nil {
 				ev.Known(f.Sig, fmt.Sprintf("KNOWN-FINDING: property=%s sig=%s %s", f.Prop, f.Sig, f.Msg))
 			}
+			dumpKnown(cfg.ID, f, s)
 			continue
 		}
 		viol = append(viol, f)
@@ -297,4 +298,20 @@ func RunC15Trace(id string, s *Scenario) ([]Finding, []string) {
 		return RunC15(s, nil, true)
 	}
 	return nil, nil
+}
+
+// dumpKnown writes the first case exhibiting each known finding to $VERIF_DUMP_KNOWN (used once, to build
+// the regression corpus that re-exhibits every listed finding deterministically).
+func dumpKnown(prop string, f Finding, s *Scenario) {
+	dir := os.Getenv("VERIF_DUMP_KNOWN")
+	if dir == "" {
+		return
+	}
+	name := filepath.Join(dir, prop+"-"+filepath.Base(f.Sig)+".json")
+	if _, err := os.Stat(name); err == nil {
+		return
+	}
+	os.MkdirAll(dir, 0o755)
+	b, _ := json.MarshalIndent(&ReplayFile{Prop: prop, Findings: []Finding{f}, Scenario: s.JSON()}, "", " ")
+	os.WriteFile(name, b, 0o644)
 }
